@@ -428,6 +428,8 @@ pub fn run(ctx: &mut Ctx) {
         // below a front matter a `>>` line is ordinary step text, also when it sits between the lines of a step
         "---\ntitle: Pancakes\n---\n\nMix the @flour{200%g} with the @milk{300%ml}\n>> tip: sift the flour first\nand whisk until smooth.\n\nFry in a #pan{} for ~{2%min}.\n",
         "---\ntitle: x\n---\nStep one\n>> not metadata\n>>\nstill step one @a{1}.\n\n>> alone: here\n\nLast.\n",
+        // numbers written with commas in plain step text
+        "Fold the dough until it has about 1,000 layers, use 1,5 parts of water and 3,4 or 5 eggs at 37,5 degrees.",
         // a locked text value with blanks after the `=`; a brace-less component directly followed by `|word`
         "Season with @salt{= to taste} and @pepper{=  a pinch} or @x{=[- c -] some}.",
         "Deglaze with @wine|vino and scrape the #pan|sarten well, then @salt| x and @oil|.",
